@@ -38,6 +38,9 @@ type Config struct {
 	IssuerFn                                                           func(bool) (op.IssuerFromRequest, error)
 	UserCode                                                           *op.UserCodeConfig
 	DeviceLifetime, DevicePoll                                         time.Duration // 0 => 5 min / 5 s
+	// StorageFn (optional): the op.Storage value handed to the provider, built by the caller around the reference store - for
+	// capability sets that refstore.Caps does not span (C15: CanGetPrivateClaimsFromRequest). nil: Store.With(Caps).
+	StorageFn func(*refstore.Store) op.Storage
 }
 
 type Bed struct {
@@ -67,6 +70,9 @@ func New(cfg Config) (*Bed, error) {
 	st.MultiTenant = cfg.IssuerFn != nil
 	b := &Bed{Cfg: cfg, Store: st, CryptoKey: sha256.Sum256([]byte("verif-crypto-key")), SignKey: cfg.SignKey}
 	b.Storage = st.With(cfg.Caps)
+	if cfg.StorageFn != nil {
+		b.Storage = cfg.StorageFn(st)
+	}
 	uc := op.UserCodeBase20
 	if cfg.UserCode != nil {
 		uc = *cfg.UserCode
